@@ -143,6 +143,133 @@ theorem clear_any_fault (cfg : Cfg) (w : World) (v : Nat) (d : VecSt)
       rw [hr]
       exact ⟨hvis, ⟨n, hn, by simpa using hlog⟩, hoth, by simpa using h3, Or.inr ⟨_, rfl⟩⟩
 
+/-- `Remove::consume` on any world whose vector `v` is `d0` (with `len` already lowered to `i`) -/
+theorem consume_remove (w' : World) (v i last : Nat) (typed : Bool) (d0 : VecSt)
+    (hv' : w'.vecs[v]? = some d0) (hl : d0.live = true) (hb2 : i + 1 + (last - i) ≤ d0.cap) (hb3 : i + (last - i) ≤ d0.cap) :
+    hConsume { v := v, kind := .remove i last, typed := typed } w' =
+      (w'.upd v { d0 with cells := memmove (d0.cells.ensure (max (i + 1 + (last - i)) (i + (last - i)))) (i + 1) i (last - i),
+                          len := last }, .ok ()) := by
+  have hlt : v < w'.vecs.length := (List.getElem?_eq_some_iff.mp hv').1
+  have hd : w'.vecs[v] = d0 := (List.getElem?_eq_some_iff.mp hv').2
+  simp [hConsume, moveElems, getVec, hlt, hd, hl, VecSt.moveElems_ok, hb2, hb3, setLen, World.upd]
+
+/-- **`remove(i)` + drop of the handle at every crash point**: whatever the fault state, the removed
+element's destructor runs exactly once; if it returns, the vector is `eraseIdx i` of the old one; if
+it panics, the vector keeps exactly the elements before `i` (the tail is leaked) — in both cases no
+destroyed element stays visible, nothing is duplicated, no other vector or held value is touched. -/
+theorem remove_drop_any_fault (cfg : Cfg) (w : World) (v i id : Nat) (d : VecSt)
+    (hv : w.vecs[v]? = some d) (hl : d.live = true) (hwf : d.WF) (hi : i < d.len)
+    (hc : d.cells.get i = .val id) :
+    let r := step cfg (.remove v i .drop) w
+    r.1.dropLog = id :: w.dropLog ∧ r.1.held = w.held ∧ (∀ u, u ≠ v → r.1.vecs[u]? = w.vecs[u]?) ∧
+      ((r.2 = .ok [] ∧ r.1.vis v = (w.vis v).eraseIdx i) ∨
+       ((∃ m, r.2 = .panic m) ∧ r.1.vis v = (w.vis v).take i)) := by
+  have hlt : v < w.vecs.length := (List.getElem?_eq_some_iff.mp hv).1
+  have hd : w.vecs[v] = d := (List.getElem?_eq_some_iff.mp hv).2
+  have h1 := hwf.len_le; have h2 := hwf.cells_le
+  have hb1 : i < d.cap := by omega
+  let d0 : VecSt := { d with len := i }
+  let w0 : World := w.upd v d0
+  have hv0 : w0.vecs[v]? = some d0 := by simp [w0, hlt]
+  obtain ⟨e1, e2, e3, e4, e5⟩ := dropElem_any d.hasDrop id w0
+  have hstep : step cfg (.remove v i .drop) w =
+      match dropElem d.hasDrop id w0 with
+      | (w', .ok _) => match hConsume { v := v, kind := .remove i (d.len - 1), typed := false } w' with
+        | (w'', .ok _) => (w'', .ok [])
+        | (w'', .panic s) => (w'', .panic s)
+        | (w'', .ub s) => (w'', .ub s)
+      | (w', .panic s) => (w', .panic s)
+      | (w', .ub s) => (w', .ub s) := by
+    simp [step, getVec, hl, hi, hlt, hd, setLen, sinkHandle, hDrop, hSlot, readElem, VecSt.readElem_ok, hb1, hc, w0, d0]
+    cases hde : dropElem d.hasDrop id (w.upd v { d with len := i, live := true }) with
+    | mk w1 res =>
+      cases res with
+      | ok _ =>
+        simp only
+        cases hcs : hConsume { v := v, kind := .remove i (d.len - 1), typed := false } w1 with
+        | mk w2 res2 => cases res2 <;> rfl
+      | panic _ => rfl
+      | ub _ => rfl
+  intro r
+  have hr : r = _ := hstep
+  cases hde : dropElem d.hasDrop id w0 with
+  | mk w1 res =>
+    rw [hde] at e1 e2 e3 e4 e5 hr
+    simp only at e1 e2 e3 e4 e5
+    have hv1 : w1.vecs[v]? = some d0 := by rw [e2]; exact hv0
+    have hoth : ∀ u, u ≠ v → w1.vecs[u]? = w.vecs[u]? := by
+      intro u hu; rw [e2]; simp [w0, List.getElem?_set, Ne.symm hu]
+    rcases e5 with hok | ⟨m, hp⟩
+    · subst hok
+      have hcs := consume_remove w1 v i (d.len - 1) false d0 hv1 hl (by simp [d0]; omega) (by simp [d0]; omega)
+      simp only [hcs] at hr
+      rw [hr]
+      refine ⟨by simpa [w0] using e1, by simpa [w0] using e3, ?_, Or.inl ⟨rfl, ?_⟩⟩
+      · intro u hu; simp [List.getElem?_set, Ne.symm hu, hoth u hu]
+      · have hlt1 : v < w1.vecs.length := (List.getElem?_eq_some_iff.mp hv1).1
+        have := VecSt.removeAt_abs d i hwf hi
+        simp only [VecSt.removeAt, VecSt.abs] at this
+        simp [World.vis, hlt1, hd, hlt, VecSt.abs, d0]
+        exact this
+    · subst hp
+      rw [hr]
+      refine ⟨by simpa [w0] using e1, by simpa [w0] using e3, hoth, Or.inr ⟨⟨m, rfl⟩, ?_⟩⟩
+      have hlt1 : v < w1.vecs.length := (List.getElem?_eq_some_iff.mp hv1).1
+      simp [World.vis, hv1, hv, VecSt.abs, d0, List.take_take]
+      omega
+
+/-- **a lazy clone that panics inside `insert`**: when the (only) user-code call of
+`dst.insert(i, src.at(j).lazy_clone())` — the element's `Clone` — is the one that panics, `dst` is left with
+exactly the elements before `i` (the shifted tail is leaked, never shown twice); nothing is created,
+destroyed or held, and the source vector is untouched. -/
+theorem insert_lazy_clone_panics (w : World) (src dst i j id : Nat) (s d d1 : VecSt) (es : List Event)
+    (hsd : src ≠ dst)
+    (hs : w.vecs[src]? = some s) (hsl : s.live = true) (hswf : s.WF) (hj : j < s.len)
+    (hc : s.cells.get j = .val id)
+    (hv : w.vecs[dst]? = some d) (hl : d.live = true) (hwf : d.WF) (hty : s.ty = d.ty) (hi : i ≤ d.len)
+    (hr : d.reserveOne = .ok (d1, es)) (hf : w.fault = some 1) :
+    let r := World.insert dst i (.lazyElem src j) w
+    (∃ m, r.2 = .panic m) ∧ r.1.vis dst = (w.vis dst).take i ∧ r.1.vecs[src]? = some s ∧
+      r.1.dropLog = w.dropLog ∧ r.1.held = w.held ∧ r.1.created = w.created := by
+  have hlt : dst < w.vecs.length := (List.getElem?_eq_some_iff.mp hv).1
+  have hd : w.vecs[dst] = d := (List.getElem?_eq_some_iff.mp hv).2
+  have hslt : src < w.vecs.length := (List.getElem?_eq_some_iff.mp hs).1
+  have hsdd : w.vecs[src] = s := (List.getElem?_eq_some_iff.mp hs).2
+  obtain ⟨h3, h1, habs1, hwf1, _, _, _, _, _, _, h4⟩ := reserveOne_spec d d1 es hwf hr
+  have hl1 : d1.live = true := by rw [h4]; exact hl
+  have hbs : j < s.cap := by have := hswf.len_le_cap; omega
+  have hne : ¬ dst = src := fun h => hsd h.symm
+  have hnot : ¬ (d.len < i) := by omega
+  have hb1 : i + (d.len - i) ≤ d1.cap := by omega
+  have hb2 : i + 1 + (d.len - i) ≤ d1.cap := by omega
+  let d2 : VecSt := { d1 with cells := memmove (d1.cells.ensure (i + 1 + (d.len - i))) i (i + 1) (d.len - i), len := i }
+  have he : World.insert dst i (.lazyElem src j) w =
+      ({ w with vecs := w.vecs.set dst d2, ev := es.reverse ++ w.ev, fault := none }, .panic "injected") := by
+    simp [World.insert, valTy, getVec, hl, hlt, hd, hsl, hslt, hsdd, hty, insertUnchecked, hnot, WM.onUnwind, vecOp,
+      hr, hl1, setLen, moveElems, valKnownType, VecSt.moveElems_ok, hb1, hb2, h1, valMoveInto, readElem,
+      List.getElem?_set, hne, hsd, VecSt.readElem_ok, hbs, hc, World.upd, d2, cloneElem, tick, hf]
+  intro r
+  rw [show r = _ from he]
+  refine ⟨⟨_, rfl⟩, ?_, by simp [List.getElem?_set, hne, hsd, hs], rfl, rfl, rfl⟩
+  simp only [World.vis, List.getElem?_set_self hlt, hv, VecSt.abs, d2]
+  have h1' := hwf1.len_le
+  rw [List.take_take, Nat.min_eq_left hi]
+  apply List.ext_getElem?
+  intro k
+  simp only [List.getElem?_take]
+  by_cases hk : k < i
+  · have hs1 : i + (d.len - i) ≤ (d1.cells.ensure (i + 1 + (d.len - i))).length := by simp; omega
+    have hs2 : i + 1 + (d.len - i) ≤ (d1.cells.ensure (i + 1 + (d.len - i))).length := by simp; omega
+    have hcd : d1.cells.take d.len = d.cells.take d.len := by simpa [VecSt.abs, h1] using habs1
+    have hk2 : k < d.len := by omega
+    have : d1.cells[k]? = d.cells[k]? := by
+      have := congrArg (fun l => l[k]?) hcd
+      simpa [List.getElem?_take, hk2] using this
+    have hkl : k < d1.cells.length := by omega
+    simp [hk, memmove_getElem? _ _ _ _ _ hs1 hs2, ensure_getElem?, show ¬ (i + 1 ≤ k) by omega, hkl]
+    rw [← this, List.getElem?_eq_getElem hkl]
+  · simp [hk]
+
 /-! non-vacuity: a fault at the second destructor call -/
 def sampleVec : VecSt :=
   { ty := 0, size := 8, align := 8, hasDrop := true, cloneable := true, bk := .heap, cap := 4,
